@@ -232,7 +232,8 @@ Lemma alloc_xtn_ciphers_dl n p : forall owned,
 Proof.
   induction n as [|n IH]; intros owned; cbn [alloc_xtn_ciphers].
   - apply dl_ret. lia.
-  - eapply dl_bind; [apply alloc_cipher_dl | cbv beta; intros; lia | cbv beta; intros o1 d1 [-> ->]].
+  - change (xtn_cipher_id p) with (cp_cipher (p_rtp p)). change (xtn_cipher_klen p) with (cp_keylen (p_rtp p)).
+    eapply dl_bind; [apply alloc_cipher_dl | cbv beta; intros; lia | cbv beta; intros o1 d1 [-> ->]].
     eapply dl_conseq; [apply IH | cbv beta | cbv beta ]; unfold cb_rtp; intros; lia.
 Qed.
 
@@ -286,7 +287,7 @@ Definition stream_wf (s : stream) : Prop :=
   Forall (fun k => k_mki k = [] <-> s_mki_size s = 0) (s_keys s).
 
 Lemma ck_alg_cipher_key alg klen key : ck_alg (cipher_key alg klen key) = alg.
-Proof. unfold cipher_key. destruct (alg =? SRTP_NULL_CIPHER_c); reflexivity. Qed.
+Proof. unfold cipher_key. destruct (alg =? SRTP_NULL_CIPHER_c); [reflexivity|]. destruct (is_gcm_alg alg); reflexivity. Qed.
 
 Lemma pair_some_inv {A B} (a a' : A) (b b' : B) : (a, Some b) = (a', Some b') -> b = b'.
 Proof. intros H; injection H; auto. Qed.
@@ -309,7 +310,7 @@ Lemma init_keys_dl p msz km owned : 0 <= msz ->
      (fun r d => key_ok p msz (fst r) /\ snd r = owned + mki01 msz /\ d = mki01 msz)
      (fun _ _ => True).
 Proof.
-  intros Hm. unfold init_keys.
+  intros Hm. unfold init_keys. change derive_keys_any with derive_keys.
   eapply dl_bind with (Rm := fun o1 d => o1 = owned + mki01 msz /\ d = mki01 msz /\ (msz <> 0 -> snd km <> []))
                       (Em := fun _ _ => True).
   - unfold mki01. destruct (msz =? 0) eqn:Emz; cbn [negb].
